@@ -500,6 +500,14 @@ func c12Huge(c *fw.Ctx, idx int) {
 	if r.Chance(1, 3) {
 		k = []int{511, 512, 513, 520, 1000, 1010, 1015}[r.Intn(7)]
 	}
+	if r.Chance(1, 3) {
+		// ... or scaled down by 2^-100 .. 2^-330 (1e-30 .. 1e-99, the smallest
+		// magnitudes C10 names for the orientation predicate; below about 1e-154
+		// products of two ordinate differences underflow and, as the code stands,
+		// the classification is no longer exact - DESIGN 4b)
+		k = -r.Range(100, 330)
+		c.Count("tiny_magnitude_pairs")
+	}
 	sc := func(p [2]float64) [2]float64 { return [2]float64{math.Ldexp(p[0], k), math.Ldexp(p[1], k)} }
 	f1, f2 := seg{sc(s1.a), sc(s1.b)}, seg{sc(s2.a), sc(s2.b)}
 	if f1.a == f1.b || f2.a == f2.b {
